@@ -73,7 +73,7 @@ theorem copyCtor_spec (P : Params) (n0 : Nat) (S : Nat → Bool) (o : Sketch) (h
     rw [new5.st, hst3, ss2.st, ss1.st]
   have hmm := mm_of_eq u e0 e1
   refine ⟨rfl, ⟨⟨inv.m_eq, new5.cells _ (sb3.cells _ _ (sb2.cells _ _ hc1)), by rw [sb5.next, hnx4]; simp only; omega,
-    (fun v hv => by cases hv), ?_⟩, ⟨h.next + 1, rfl, ?_⟩, hmm.1, hmm.2, u.ret⟩, old,
+    (fun v hv => by cases hv), ?_⟩, ⟨h.next + 1, rfl, ?_⟩, hmm.1, hmm.2, u.ret, u.wt, u.pw⟩, old,
     by rw [sb5.ids, hid4, sb3.ids, sb2.ids, hid1], by rw [sb5.next, hnx4]⟩
   · intro b hb
     simp only [Option.some.injEq] at hb
@@ -106,7 +106,7 @@ theorem Usable.rehome {P : Params} {h h' : Heap} {s : Sketch} (u : Usable P h s)
     (hv : ∀ v, vw = some v → HasCells h' v 1 ∧ stAt h' v 0 = .raw ∧ v < h'.next ∧ v ≠ self') :
     Usable P h' { s with self := self', view := vw } := by
   have hmm := mm_of_eq u e0 e1
-  refine ⟨u.toInv.rehome self' vw hself hlt hitems hn hv, ?_, hmm.1, hmm.2, u.ret⟩
+  refine ⟨u.toInv.rehome self' vw hself hlt hitems hn hv, ?_, hmm.1, hmm.2, u.ret, u.wt, u.pw⟩
   obtain ⟨b, hb, hl⟩ := u.items
   refine ⟨b, hb, fun j h1 h2 => ?_⟩
   rw [(hitems b hb).1.st]; exact hl j h1 h2
